@@ -146,6 +146,7 @@ class RedlineEngine:
         self.mapper = DocumentMapper(self.doc)
         self.comments_manager = CommentsManager(self.doc)
         self.clean_mapper: Optional[DocumentMapper] = None
+        self._shortened_insertions: List[Any] = []
 
     def _scan_existing_ids(self) -> int:
         """
@@ -497,6 +498,12 @@ class RedlineEngine:
         parent = run._r.getparent()
         if parent is None:
             return None
+        if parent.tag == qn("w:ins"):
+            # A range that reaches into a pending insertion takes that text out of the insertion
+            # (an edit on inserted text replaces it); a w:del inside the w:ins would nest the marks.
+            parent.remove(run._r)
+            self._shortened_insertions.append(parent)
+            return None
         del_tag = self._create_track_change_tag("w:del")
         # Keep the run as it is (properties, tabs, breaks, drawings); only its text nodes
         # become deleted text, so that rejecting the deletion restores the original run.
@@ -723,30 +730,9 @@ class RedlineEngine:
         self._last_match_range = raw_range
 
         # --- HEURISTIC NESTED EDIT FIX ---
-        context_span = active_mapper.get_context_at_range(start_idx, start_idx + match_len)
-
-        if context_span and context_span.ins_id:
-            ins_id = context_span.ins_id
-            ins_spans = [s for s in active_mapper.spans if s.ins_id == ins_id]
-            # The proxy edit below is applied through the raw map, so it must be addressed in raw
-            # coordinates even when the match was found in the clean view.
-            raw_ins_spans = [s for s in self.mapper.spans if s.ins_id == ins_id]
-            if ins_spans and raw_ins_spans:
-                ins_start = ins_spans[0].start
-                full_ins_text = "".join(s.text for s in ins_spans)
-                rel_start = start_idx - ins_start
-
-                expanded_new_text = (
-                    full_ins_text[:rel_start] + (edit.new_text or "") + full_ins_text[rel_start + match_len :]
-                )
-
-                proxy_edit = DocumentEdit(
-                    target_text=full_ins_text,
-                    new_text=expanded_new_text,
-                    comment=edit.comment,
-                )
-                proxy_edit._match_start_index = raw_ins_spans[0].start
-                return self._apply_single_edit_indexed(proxy_edit)
+        proxy_edit = self._proxy_for_insertion(active_mapper, start_idx, match_len, edit.new_text or "", edit.comment)
+        if proxy_edit is not None:
+            return self._apply_single_edit_indexed(proxy_edit)
         # ---------------------------------
 
         effective_new_text = edit.new_text or ""
@@ -780,12 +766,43 @@ class RedlineEngine:
             else:
                 return True
 
+        if final_target:
+            # The changed part may lie inside a pending insertion although the quoted context does not
+            nested_edit = self._proxy_for_insertion(
+                active_mapper, effective_start_idx, len(final_target), final_new, edit.comment
+            )
+            if nested_edit is not None:
+                return self._apply_single_edit_indexed(nested_edit)
+
         proxy_edit = DocumentEdit(target_text=final_target, new_text=final_new, comment=edit.comment)
         proxy_edit._match_start_index = effective_start_idx
         proxy_edit._internal_op = effective_op
         proxy_edit._active_mapper_ref = active_mapper
 
         return self._apply_single_edit_indexed(proxy_edit)
+
+    def _proxy_for_insertion(
+        self, active_mapper: DocumentMapper, start_idx: int, length: int, new_text: str, comment: Optional[str]
+    ) -> Optional[DocumentEdit]:
+        """
+        A range that lies inside one pending insertion is rewritten as a replacement of that whole
+        insertion (its text with the range replaced), addressed in raw coordinates. None otherwise.
+        """
+        ins_id = active_mapper.insertion_enclosing_range(start_idx, start_idx + length)
+        if not ins_id:
+            return None
+        ins_spans = [s for s in active_mapper.spans if s.ins_id == ins_id]
+        # The proxy edit is applied through the raw map, so it must be addressed in raw
+        # coordinates even when the match was found in the clean view.
+        raw_ins_spans = [s for s in self.mapper.spans if s.ins_id == ins_id]
+        if not ins_spans or not raw_ins_spans:
+            return None
+        full_ins_text = "".join(s.text for s in ins_spans)
+        rel_start = start_idx - ins_spans[0].start
+        expanded_new_text = full_ins_text[:rel_start] + new_text + full_ins_text[rel_start + length :]
+        proxy_edit = DocumentEdit(target_text=full_ins_text, new_text=expanded_new_text, comment=comment)
+        proxy_edit._match_start_index = raw_ins_spans[0].start
+        return proxy_edit
 
     @staticmethod
     def _range_touches_deletion(mapper: DocumentMapper, start_idx: int, end_idx: int) -> bool:
@@ -815,10 +832,9 @@ class RedlineEngine:
                 return False
 
         if length > 0:
-            context_span = active_mapper.get_context_at_range(start_idx, start_idx + length)
-            if context_span and context_span.ins_id:
-                logger.info(f"Detected edit inside Insertion ID={context_span.ins_id}. Converting to Replace.")
-                ins_id = context_span.ins_id
+            ins_id = active_mapper.insertion_enclosing_range(start_idx, start_idx + length)
+            if ins_id:
+                logger.info(f"Detected edit inside Insertion ID={ins_id}. Converting to Replace.")
                 ins_nodes = self.doc.element.xpath(f"//w:ins[@w:id='{ins_id}']")
                 if not ins_nodes:
                     return False
@@ -902,16 +918,24 @@ class RedlineEngine:
 
         elif op == EditOperationType.MODIFICATION:
             first_del_element = None
-            last_del_element = None
+            # Where the new text goes: behind the last deletion, or in front of what is left of a
+            # pending insertion the range ended in.
+            anchor_element = None
+            insert_after = True
             for run in target_runs:
+                enclosing = run._r.getparent()
                 del_elem = self.track_delete_run(run)
+                if del_elem is None:
+                    if enclosing is not None and enclosing.tag == qn("w:ins"):
+                        anchor_element, insert_after = enclosing, False
+                    continue
                 if first_del_element is None:
                     first_del_element = del_elem
-                last_del_element = del_elem
+                anchor_element, insert_after = del_elem, True
 
-            if last_del_element is not None and edit.new_text:
-                parent = last_del_element.getparent()
-                del_index = parent.index(last_del_element)
+            if anchor_element is not None and edit.new_text:
+                parent = anchor_element.getparent()
+                insert_index = parent.index(anchor_element) + (1 if insert_after else 0)
 
                 text_to_insert = edit.new_text
                 clean_text, style_name = self._parse_markdown_style(text_to_insert)
@@ -930,17 +954,32 @@ class RedlineEngine:
                     suppress_inherited=not _has_markdown,
                 )
                 if ins_elem is not None:
-                    parent.insert(del_index + 1, ins_elem)
+                    parent.insert(insert_index, ins_elem)
 
-                if edit.comment and ins_elem is not None and first_del_element is not None:
-                    start_p = first_del_element.getparent()
+                if edit.comment and ins_elem is not None:
+                    start_el = first_del_element if first_del_element is not None else ins_elem
+                    start_p = start_el.getparent()
                     end_p = ins_elem.getparent()
 
                     if start_p == end_p:
-                        self._attach_comment(parent, first_del_element, ins_elem, edit.comment)
+                        self._attach_comment(parent, start_el, ins_elem, edit.comment)
                     else:
-                        self._attach_comment_spanning(start_p, first_del_element, end_p, ins_elem, edit.comment)
+                        self._attach_comment_spanning(start_p, start_el, end_p, ins_elem, edit.comment)
+        self._drop_emptied_insertions()
         return True
+
+    def _drop_emptied_insertions(self):
+        """A pending insertion all of whose runs were taken out by an edit disappears (range markers in it stay)."""
+        for ins in self._shortened_insertions:
+            parent = ins.getparent()
+            if parent is None or ins.find(qn("w:r")) is not None:
+                continue
+            index = parent.index(ins)
+            for child in list(ins):
+                parent.insert(index, child)
+                index += 1
+            parent.remove(ins)
+        self._shortened_insertions = []
 
     def _get_next_run(self, run: Run) -> Optional[Run]:
         curr = run._element
